@@ -24,6 +24,8 @@ def _run(worker, i, n, child, conn):
     try:
         worker(i, n, child)
         conn.send(("ok", pickle.dumps(child.state())))
+    except Broken as e:
+        conn.send(("broken", str(e)))
     except BaseException as e:  # noqa
         conn.send(("err", "".join(traceback.format_exception(type(e), e, e.__traceback__))))
     finally:
@@ -51,6 +53,7 @@ def run_shards(chk, worker, nshards=None):
         cc.close()
         procs.append((p, pc))
     errs = []
+    broken = []
     for p, pc in procs:
         try:
             kind, payload = pc.recv()
@@ -59,8 +62,13 @@ def run_shards(chk, worker, nshards=None):
         p.join()
         if kind == "ok":
             chk.absorb(pickle.loads(payload))
+        elif kind == "broken":
+            broken.append(payload)
         else:
             errs.append(payload)
+    if broken:
+        # a self-check of the harness failed in a worker: the CHECK is broken, nothing is claimed
+        raise Broken(broken[0])
     if errs:
         raise WorkerError(errs[0])
 
